@@ -145,6 +145,7 @@ def _b_length(x):
 
 
 BUILTINS = {
+    "process_lines": None,
     "append": _b_append, "put": _b_put, "string": _b_string,
     "length": _b_length, "identity": lambda x: x,
 }
@@ -499,6 +500,14 @@ class Machine:
         if isinstance(fn, Builtin):
             if any(nm is not None for nm, _ in args):
                 raise Unspec("named argument to a library function")
+            if fn.name == "process_lines":
+                # process_lines(lines, callback): the callback is called once
+                # per line, in order; whatever it raises propagates
+                if len(args) != 2 or kind(args[0][1]) != "list":
+                    raise Unspec("process_lines operands")
+                for line in list(args[0][1]):
+                    self.call(args[1][1], [(None, line)])
+                return len(args[0][1])
             try:
                 return fn.fn(*[v for _, v in args])
             except TypeError:
@@ -563,6 +572,13 @@ class Machine:
             # spelling the reference does not model (e.g. an input stream
             # whose lines are the given list)
             return copy.deepcopy(n[2])
+        if t in ("evalstr", "evalnode"):
+            # eval('<source of n[1]>') / eval(parse('...')): the code runs in
+            # the current scope; exits crossing the eval are not pinned
+            try:
+                return self.ev(n[1], env)
+            except (Return, Break, Continue):
+                raise Unspec("control statement through eval")
         if t == "rawerr":
             # ('rawerr', source text): an operation that fails inside the
             # host (overflow, ...) and must surface as the runtime 'ERROR'
@@ -672,6 +688,24 @@ class Machine:
             v = self.ev(n[2], env)
             e2 = env.lookup(n[1])
             e2.vars[n[1]] = v
+            return v
+        if t in ("dassign", "ddef"):
+            # ('dassign'|'ddef', [names], expr): [a, b] = expr updates the
+            # nearest enclosing bindings, def [a, b] = expr binds locally
+            if t == "dassign" and any(env.lookup(nm) is None for nm in n[1]):
+                raise err()
+            v = self.ev(n[2], env)
+            if kind(v) == "set":
+                v = v.sorted()
+            elif kind(v) != "list":
+                raise Unspec("destructuring a non-collection")
+            if len(v) < len(n[1]):
+                raise Unspec("short destructuring")
+            for nm, x in zip(n[1], v):
+                if t == "ddef":
+                    env.vars[nm] = x
+                else:
+                    env.lookup(nm).vars[nm] = x
             return v
         if t == "opassign":
             e = env.lookup(n[1])
@@ -894,7 +928,7 @@ def level(n):
                 isinstance(n[1], float) and str(n[1]).startswith("-"))):
         return 7
     if t in ("def", "assign", "opassign", "if", "for", "while", "return",
-             "error", "fn", "break", "continue"):
+             "error", "fn", "break", "continue", "dassign", "ddef"):
         return 0
     return 8
 
@@ -1023,6 +1057,10 @@ def R(n, need, full):
         return "def " + n[1] + " = " + R(n[2], 0, full)
     if t == "assign":
         return n[1] + " = " + R(n[2], 0, full)
+    if t == "dassign":
+        return "[" + ", ".join(n[1]) + "] = " + R(n[2], 0, full)
+    if t == "ddef":
+        return "def [" + ", ".join(n[1]) + "] = " + R(n[2], 0, full)
     if t == "opassign":
         return n[1] + " " + n[2] + "= " + R(n[3], 0, full)
     if t == "fn":
@@ -1072,6 +1110,10 @@ def R(n, need, full):
         return s
     if t in ("raw", "rawerr"):
         return n[1]
+    if t == "evalstr":
+        return "eval(" + lit(R(n[1], 0, full)) + ")"
+    if t == "evalnode":
+        return "eval(parse(" + lit(R(n[1], 0, full)) + "))"
     if t == "for":
         _, names, what, it, body = n
         nm = names[0] if len(names) == 1 else "[" + ", ".join(names) + "]"
